@@ -6401,9 +6401,14 @@ impl Nudge {
                     unit = largest.plural(),
                 )
             })?
+            // N.B. We specifically do not copy the weeks from `balanced`.
+            // Weeks are invariant here and thus are part of the nanoseconds
+            // that were rounded above. When the largest unit is weeks, the
+            // conversion back to a span has already re-balanced them (and
+            // rounding may have changed how many there are). For any other
+            // largest unit, a balanced span has no weeks.
             .years_ranged(balanced.get_years_ranged())
-            .months_ranged(balanced.get_months_ranged())
-            .weeks_ranged(balanced.get_weeks_ranged());
+            .months_ranged(balanced.get_months_ranged());
 
         let diff_nanos = rounded_nanos - balanced_nanos;
         let diff_days = rounded_nanos.div_ceil(t::NANOS_PER_CIVIL_DAY)
